@@ -70,9 +70,15 @@ func main() {
 			fmt.Printf("%s: %s\n", id, strings.Join(rn, " "))
 		}
 	default:
+		if f, ok := debugCmds[os.Args[1]]; ok {
+			f(os.Args[2:])
+			return
+		}
 		usage()
 	}
 }
+
+var debugCmds = map[string]func([]string){}
 
 func usage() {
 	fmt.Println("usage: verif-sa check --property Cxx [--tier quick|thorough] [--repo /repo] | explain <replay.json> | list")
